@@ -64,6 +64,8 @@ func loadPool() error {
 			for _, d := range closure([]string{n}) {
 				if d == nil {
 					ok = false // an import that is not linked (legacy.proto)
+				} else if usesMessageSet(d.GetMessageType()) {
+					ok = false // protodesc rejects MessageSet without the protolegacy tag: Options.New fails (kept out to keep cases productive)
 				}
 			}
 			if ok {
@@ -72,6 +74,15 @@ func loadPool() error {
 		}
 	})
 	return poolErr
+}
+
+func usesMessageSet(ms []*descriptorpb.DescriptorProto) bool {
+	for _, m := range ms {
+		if m.GetOptions().GetMessageSetWireFormat() || usesMessageSet(m.GetNestedType()) {
+			return true
+		}
+	}
+	return false
 }
 
 // closure returns the named linked files and everything they import, dependencies first (nil
